@@ -116,7 +116,7 @@ def selftest(prop: str, ctx: Ctx) -> Dict[str, Any]:
         # diverge (e.g. a broken identity blowing up the normal forms) or crash is recorded as "not killed", never hangs the run
         import multiprocessing as mp
         mpc = mp.get_context("fork")
-        budget = float(os.environ.get("VERIF_MUTANT_TIMEOUT", "600"))
+        budget = float(os.environ.get("VERIF_MUTANT_TIMEOUT", "1800"))
         pending = list(enumerate(jobs))
         running: Dict[int, Any] = {}
         out: Dict[int, Any] = {}
